@@ -8,6 +8,8 @@ namespace Driver
 def parseBlock (j : Json) : P Block := do
   match (← fStr j "kind") with
   | "seq" => pure (.seq ⟨← fInt j "address", ← fNats j "values"⟩)
+  -- the block `ModbusSlaveContext` creates for a table the caller leaves out: `ModbusSequentialDataBlock.create()`
+  | "default" => pure (.seq ⟨0, List.replicate 65536 0⟩)
   | "sparse" =>
     let items ← (← fArr j "items").mapM (fun kv => do
       let l ← arr kv
